@@ -126,6 +126,11 @@ func genMapTok(r *rand.Rand, depth, n int) string {
 		}
 		seen[norm] = true
 		parts = append(parts, l, genValTok(r, depth))
+		// now and then the text label that prints like this integer label (a different CBOR key)
+		if l[0] != 't' && r.Intn(12) == 0 && !seen["t"+hx([]byte(norm))] {
+			seen["t"+hx([]byte(norm))] = true
+			parts = append(parts, "t:"+hx([]byte(norm)), genValTok(r, depth))
+		}
 	}
 	return strings.Join(append(parts, "}"), " ")
 }
